@@ -38,6 +38,7 @@ type Scenario struct {
 	CancelAfterMs []int // per session: cancel the context after this many ms (0 = when all claims are idle)
 	CloseInSession int  // call group.Close() during this session instead of cancelling (-1 never)
 	Retention  int      // Consumer.Offsets.Retention in hours (0 = unset)
+	OffsetFaultAt map[int]sarama.KError // n-th ListOffsets request -> error code (claim creation fails)
 	CleanupMarks bool   // the handler marks, in Cleanup, everything its claims were delivered (documented use of Cleanup)
 	Follower   bool     // another member leads the group; this member gets FollowerParts
 	FollowerParts []int32
@@ -52,6 +53,8 @@ type HEvent struct {
 	Member  string
 	Gen     int32
 	Err     string
+	T       int64 // ms since the scenario started
+	ByHarness bool // return events: the harness ended the session (cancel / Close), it did not end by itself
 }
 
 type Result struct {
@@ -124,6 +127,16 @@ func Gen(seed uint64, focus string) *Scenario {
 	if r.Chance(1, 4) {
 		sc.Retention = r.Pick(1, 24)
 	}
+	if r.Chance(1, 6) {
+		// creating a claim fails: the partition leader answers the offset look-up of ConsumePartition with an error
+		// (client.GetOffset retries once after a metadata refresh: two requests in a row are answered with the error)
+		at := r.Range(1, 4)
+		code := []sarama.KError{sarama.ErrNotLeaderForPartition, sarama.ErrLeaderNotAvailable, sarama.ErrUnknown}[r.Intn(3)]
+		sc.OffsetFaultAt = map[int]sarama.KError{at: code, at + 1: code}
+		if r.Bool() {
+			sc.CancelAfterMs[0] = 0
+		}
+	}
 	sc.CleanupMarks = r.Chance(1, 3) // claims only collect; everything delivered is marked in Cleanup
 	if sc.CleanupMarks && r.Bool() {
 		sc.Script = map[string]map[int]sarama.KError{}
@@ -137,6 +150,33 @@ func Gen(seed uint64, focus string) *Scenario {
 		}
 	}
 	return sc
+}
+
+// clean: nothing scripted can end the first session or keep a claim from starting, and the one real member is assigned
+// every partition: the first session must give every partition a claim and deliver everything visible from its start offset
+func (sc *Scenario) clean() bool {
+	return len(sc.Script) == 0 && len(sc.OffsetFaultAt) == 0 && sc.Ghosts == 0 && !sc.Follower && sc.CloseInSession != 0 &&
+		len(sc.Behaviour) > 0 && sc.Behaviour[0] != "early" && sc.CancelAfterMs[0] == 0
+}
+
+// effective start offset of a partition in the first session
+func (sc *Scenario) firstStart(p int32) int64 {
+	st := sc.Stored[p]
+	if st < 0 || st > int64(sc.LogLen[p]) {
+		if sc.InitialOldest {
+			return 0
+		}
+		return int64(sc.LogLen[p])
+	}
+	return st
+}
+
+func (sc *Scenario) expectedFirstSession() int {
+	n := 0
+	for p := int32(0); p < sc.Partitions; p++ {
+		n += sc.LogLen[p] - int(sc.firstStart(p))
+	}
+	return n
 }
 
 func (sc *Scenario) String() string {
@@ -158,7 +198,7 @@ func (sc *Scenario) String() string {
 	}
 	return fmt.Sprintf("seed=%d brokers=%d parts=%d log=%v stored=%v ghosts=%d strat=%s oldest=%v auto=%v retry=%d ver=%s script=[%s] sessions=%d beh=%v early=%v cancel=%v closeIn=%d",
 		sc.Seed, sc.Brokers, sc.Partitions, sc.LogLen, sc.Stored, sc.Ghosts, sc.Strategy, sc.InitialOldest, sc.AutoCommit, sc.RetryMax, sc.Version,
-		strings.Join(fs, ","), sc.Sessions, sc.Behaviour, sc.EarlyAfter, sc.CancelAfterMs, sc.CloseInSession) + fmt.Sprintf(" retention=%dh follower=%v/%v cleanupMarks=%v", sc.Retention, sc.Follower, sc.FollowerParts, sc.CleanupMarks)
+		strings.Join(fs, ","), sc.Sessions, sc.Behaviour, sc.EarlyAfter, sc.CancelAfterMs, sc.CloseInSession) + fmt.Sprintf(" retention=%dh follower=%v/%v cleanupMarks=%v offsetFault=%v", sc.Retention, sc.Follower, sc.FollowerParts, sc.CleanupMarks, sc.OffsetFaultAt)
 }
 
 type handler struct {
@@ -186,8 +226,11 @@ func (h *handler) delivered(p int32, off int64) {
 	h.mu.Unlock()
 }
 
+var t0 = time.Now()
+
 func (h *handler) ev(e HEvent) {
 	e.Seq = h.sim.GroupSeq()
+	e.T = time.Since(t0).Milliseconds()
 	e.Session = h.session
 	h.mu.Lock()
 	h.res.Events = append(h.res.Events, e)
@@ -281,6 +324,9 @@ func Run(sc *Scenario) *Result {
 		}
 		return sarama.ErrNoError
 	}
+	if len(sc.OffsetFaultAt) > 0 {
+		sim.OffsetFault = func(n int) sarama.KError { return sc.OffsetFaultAt[n] }
+	}
 	cfg := sarama.NewConfig()
 	cfg.Version = sc.Version
 	cfg.Consumer.Return.Errors = true
@@ -355,10 +401,38 @@ func Run(sc *Scenario) *Result {
 		}
 		var cerr error
 		finished := false
-		select {
-		case cerr = <-done:
-			finished = true
-		case <-time.After(wait):
+		if sc.clean() && sNo == 0 {
+			// a fault-free first session is given up to 2 s, and is ended as soon as everything visible was delivered
+			deadline := time.After(2 * time.Second)
+		poll:
+			for {
+				select {
+				case cerr = <-done:
+					finished = true
+					break poll
+				case <-deadline:
+					break poll
+				case <-time.After(10 * time.Millisecond):
+					mu.Lock()
+					n := 0
+					for _, e := range res.Events {
+						if e.Kind == "msg" {
+							n++
+						}
+					}
+					mu.Unlock()
+					if n >= sc.expectedFirstSession() {
+						time.Sleep(40 * time.Millisecond)
+						break poll
+					}
+				}
+			}
+		} else {
+			select {
+			case cerr = <-done:
+				finished = true
+			case <-time.After(wait):
+			}
 		}
 		if !finished {
 			if sc.CloseInSession == sNo {
@@ -384,7 +458,7 @@ func Run(sc *Scenario) *Result {
 			}
 		}
 		cancel()
-		e := HEvent{Kind: "return", Session: sNo}
+		e := HEvent{Kind: "return", Session: sNo, ByHarness: !finished, T: time.Since(t0).Milliseconds()}
 		if cerr != nil {
 			e.Err = cerr.Error()
 			if strings.HasPrefix(e.Err, "panic:") {
@@ -636,6 +710,64 @@ func Check(res *Result) []Fail {
 				}
 			}
 			cleanupMarks = map[int32]int64{}
+		}
+	}
+	// every assigned partition gets its ConsumeClaim; a session that cannot give one ends
+	{
+		type sinfo struct {
+			setupT, returnT int64
+			byHarness, setup bool
+			claimed         map[int32]bool
+		}
+		ss := map[int]*sinfo{}
+		get := func(n int) *sinfo {
+			if ss[n] == nil {
+				ss[n] = &sinfo{claimed: map[int32]bool{}}
+			}
+			return ss[n]
+		}
+		for _, e := range res.Events {
+			si := get(e.Session)
+			switch e.Kind {
+			case "setup":
+				si.setup, si.setupT = true, e.T
+			case "claim-start":
+				si.claimed[e.P] = true
+			case "return":
+				si.returnT, si.byHarness = e.T, e.ByHarness
+			}
+		}
+		if !sc.Follower && sc.Ghosts == 0 {
+			for n, si := range ss {
+				if !si.setup || !si.byHarness || si.returnT-si.setupT < 300 {
+					continue
+				}
+				// the session ran for at least 300 ms after Setup until the harness ended it: it was not "already ending"
+				for p := int32(0); p < sc.Partitions; p++ {
+					if !si.claimed[p] {
+						add("C07:running-session-without-claim-for-assigned-partition", "session %d ran %d ms after Setup until the harness ended it; partition %d of its assignment never got a ConsumeClaim", n, si.returnT-si.setupT, p)
+					}
+				}
+			}
+		}
+		if sc.clean() {
+			got := map[int32]map[int64]bool{}
+			for _, e := range res.Events {
+				if e.Kind == "msg" && e.Session == 0 {
+					if got[e.P] == nil {
+						got[e.P] = map[int64]bool{}
+					}
+					got[e.P][e.Off] = true
+				}
+			}
+			for p := int32(0); p < sc.Partitions; p++ {
+				for o := sc.firstStart(p); o < int64(sc.LogLen[p]); o++ {
+					if !got[p][o] {
+						add("C07:assigned-partition-not-delivered", "fault-free first session: partition %d (committed %d, log length %d) starts at %d, offset %d was never delivered", p, sc.Stored[p], sc.LogLen[p], sc.firstStart(p), o)
+						break
+					}
+				}
+			}
 		}
 	}
 	// nothing skipped across sessions: per partition the delivered offsets, in order of delivery, never jump forward over an undelivered offset
